@@ -82,7 +82,8 @@ CHECKS = {
               "or a scripted client sending the header with the key in four spellings; oracle: handler has a deadline iff the caller has, D_caller-1ms <= D_handler <= D_caller+transit, remainder <1ms conveyed as exactly 1ms, header value -> arrival+model value, malformed -> no deadline. "
               "Non-trivial = boundary digit count (1 or 8), saturating product, malformed/overlong class, remainder <1ms, non-canonical key spelling; distinct = distinct input string / case."
               " flood: 2..5 rounds of 2..32 unary calls drawn from two timeout values per round, released from one gate on 1..3 connections of one server; each handler's deadline must be its own caller's."
-              " abandon: 2..5 calls issued one after the other, all but the last cancelled while their request is written but not yet delivered (delayed delivery, by-reference or serialising link); each handler gets the deadline its own request carried."),
+              " abandon: 2..5 calls issued one after the other, all but the last cancelled while their request is written but not yet delivered (delayed delivery, by-reference or serialising link); each handler gets the deadline its own request carried."
+              " End-to-end api-mode calls carry outgoing metadata in half of the cases."),
         jobs=[dict(test="TestC08Grid", kind="enum", quick=1, thorough=1, shards=1),
               dict(test="TestC08Strings", quick=24000, thorough=1000000),
               dict(test="TestC08E2E", quick=1600, thorough=60000),
@@ -98,7 +99,8 @@ CHECKS = {
               "a later send fails with the context's error; Header() returns; a reset for the id is on the tap; the handler's context is done at the next quiescent point and the handler has exited; bystanders complete exactly; the cancelled stream's wire projection conforms (C06). "
               "Non-trivial = trace length >=2, or >=1 unread response, or deadline; distinct = distinct scenario; counters.positions = number of (scenario, position) executions."
               " In a quarter of the cases the caller's context carries a custom cancellation cause (WithCancelCause / WithTimeoutCause); the statuses demanded are those of ctx.Err()."
-              " during-open: the caller's context ends (cancel / deadline, with or without cause) while the opening envelope is inside a transport write that completes regardless; the handler that then starts must not keep a live context, the call returns the context's status, other streams are unaffected."),
+              " during-open: the caller's context ends (cancel / deadline, with or without cause) while the opening envelope is inside a transport write that completes regardless; the handler that then starts must not keep a live context, the call returns the context's status, other streams are unaffected."
+              " A send after the cancellation must fail with the context's error; io.EOF is accepted only if the stream had completed before the context ended."),
         jobs=[dict(test="TestC07", quick=1280, thorough=6000), dict(test="TestC07Open", quick=800, thorough=8000), dict(test="FuzzC07", kind="fuzz", quick=0, thorough=90)],
         floors={"TestC07:unread>=3": 0.08, "TestC07:deadline=true": 0.3, "TestC07:kind=bidi": 0.2, "TestC07:kind=server": 0.2, "TestC07:kind=client": 0.2, "TestC07:park_send=true": 0.05, "TestC07:cause=true": 0.1, "TestC07:stats=true": 0.15},
         assumptions=COMMON_ASSUMPTIONS + ["handlers that ignore >=2 queued requests and then wait are documented head-of-line blocking and generated under C11, not here"],
@@ -135,7 +137,8 @@ CHECKS = {
               "after the context-ignoring unary handlers have been released and returned, the synctest bubble ends with no goroutine left. Non-trivial = >=1 unary and >=1 stream in flight, or a handler parked in send."
               " Stream kind sdl carries a 30 ms grpc-timeout and 50 ms of virtual time may pass before the ending, so that handlers that returned DeadlineExceeded have their trailers in flight when the connection ends."
               " 0..12 unary requests: with more than eight (goat's unary workers per connection) only Stop is used as the ending."
-              " Ending resetfail: the response write that fails is that of a reset (answer to a body for an unknown stream)."),
+              " Ending resetfail: the response write that fails is that of a reset (answer to a body for an unknown stream)."
+              " Stream kind sbig is opened with a saturating grpc-timeout (99999999H / 2562048H / 99999999M)."),
         jobs=[dict(test="TestC10", quick=4800, thorough=30000), dict(test="FuzzC10", kind="fuzz", quick=0, thorough=90)],
         floors={"TestC10:ending=readfail": 0.1, "TestC10:ending=writefail": 0.1, "TestC10:ending=stop": 0.12, "TestC10:parked-in-send": 0.1, "TestC10:orphan=true": 0.2},
         assumptions=COMMON_ASSUMPTIONS + ["cancelling the context passed to Serve is not among the endings the property lists and is not generated"],
@@ -201,7 +204,8 @@ CHECKS = {
               "Non-trivial = chain length >=3, or a non-ok outcome, or >=2 stats handlers on a side."
               " Further drawn dimensions: handler errors that are or wrap io.EOF (the caller must see a failure and End.Error must be non-nil), transport failures with the error values of kit.FaultErrKinds, and for unary ok calls a cancellation issued from inside a client stats handler at the reply's InPayload event (the call succeeds, so End.Error must be nil)."
               " One Server serves two unary and two stream methods; each RPC of a case calls one of them (drawn); server interceptors record the FullMethod they are told, which must be the called one."
-              " For unary ok/herr RPCs the Serve context may have been cancelled beforehand (goat keeps serving; every interceptor and stats handler must still see every RPC)."),
+              " For unary ok/herr RPCs the Serve context may have been cancelled beforehand (goat keeps serving; every interceptor and stats handler must still see every RPC)."
+              " Under the transport outcome the RPC that was cut off must fail for the caller whatever error value the transport failed with."),
         jobs=[dict(test="TestC20", quick=4800, thorough=30000), dict(test="FuzzC20", kind="fuzz", quick=0, thorough=90), dict(test="TestC20Overlap", quick=400, thorough=4000, shards=4)],
         floors={"TestC20:outcome=cancel": 0.08, "TestC20:outcome=transport": 0.06, "TestC20:outcome=openfail": 0.05, "TestC20:chain=6": 0.08, "TestC20:single=true": 0.03, "TestC20:unread=true": 0.02, "TestC20:late_cancel=true": 0.02, "TestC20:handler_error=eof": 0.02, "TestC20:transport_error=eof": 0.004},
         assumptions=COMMON_ASSUMPTIONS + ["a caller's cancellation of a unary call is not conveyed to the server by goat (no reset for unary calls); the harness releases such handlers itself"],
@@ -215,9 +219,10 @@ CHECKS = {
               "burst: 17..60 envelopes (or a server stream of that many messages) to one destination whose writes are parked: loss equal to the verif drop counter is the listed known finding proxy-drop; any other loss, duplicate or reordering is a violation. "
               "attach: for 4..32 undiallable names a peer attaches (AddClient) from one goroutine at the very moment 1..3 envelopes for that name are written from another, with no quiescent point in between; the racing envelopes may be forwarded (in order) or refused, "
               "but an envelope sent by the same or another client after both have completed must reach the attached connection exactly once. "
-              "Non-trivial = >=2 sources to one destination, a dial-on-demand peer, a rewrite, >=2 proxy clients, or a burst."),
+              "Non-trivial = >=2 sources to one destination, a dial-on-demand peer, a rewrite, >=2 proxy clients, or a burst."
+              " In a quarter of the envelope-level cases client c0 attaches again under its name before envelope k (the old connection stays up): nothing may reach the superseded connection afterwards."),
         jobs=[dict(test="TestC16", quick=1600, thorough=20000), dict(test="TestC16RPC", quick=960, thorough=12000), dict(test="TestC16Burst", quick=64, thorough=1000, shards=4), dict(test="TestC16Attach", quick=1600, thorough=24000), dict(test="FuzzC16", kind="fuzz", quick=0, thorough=90)],
-        floors={"TestC16:dial_on_demand=true": 0.3, "TestC16:rewrite=alias": 0.1, "TestC16:late_dialable=true": 0.05, "TestC16Burst:burst.rpc=true": 0.2, "TestC16Attach:attach.sender=other": 0.3},
+        floors={"TestC16:dial_on_demand=true": 0.3, "TestC16:rewrite=alias": 0.1, "TestC16:late_dialable=true": 0.05, "TestC16Burst:burst.rpc=true": 0.2, "TestC16Attach:attach.sender=other": 0.3, "TestC16:reattach=true": 0.1},
         assumptions=COMMON_ASSUMPTIONS + ["loss is attributed to buffer overflow through the verif-tagged counter at the proxy's drop site"],
     ),
     "C17": dict(
@@ -227,9 +232,10 @@ CHECKS = {
               "Oracle: no crash; spoofed/headerless envelopes reach nobody; every honest envelope arrives exactly once at the next quiescent point whatever the bad peer does; a failed connection is reported to the disconnect callback and an envelope to its name then triggers a fresh dial; "
               "after re-attachment traffic reaches the new connection; after cancellation nothing is forwarded, Serve returns and the synctest bubble ends with no goroutine left. Non-trivial = every case (all involve a fault, a spoof or a cancellation)."
               " The bad peer's transport optionally ignores the context passed to Read (as a net.Conn without deadlines does); fault error values are drawn from kit.FaultErrKinds; mode attach-race: a peer attaches at the very moment the first envelope for its undiallable name arrives."
-              " Spoofed envelopes optionally carry sender-chosen route fields (a route record ending in the sender's own name, the victim's name, the proxy's name; a return route)."),
+              " Spoofed envelopes optionally carry sender-chosen route fields (a route record ending in the sender's own name, the victim's name, the proxy's name; a return route)."
+              " The bad peer's connection is either attached by the peer or dialled on demand by the proxy."),
         jobs=[dict(test="TestC17", quick=3200, thorough=30000), dict(test="FuzzC17", kind="fuzz", quick=0, thorough=90)],
-        floors={"TestC17:mode=cancel": 0.1, "TestC17:mode=reattach/old_first=false/read": 0.02, "TestC17:mode=spoof/other-source": 0.025, "TestC17:mode=badpeer/slow-failing-dial": 0.012, "TestC17:badpeer.deaf_read=true": 0.05, "TestC17:mode=attach-race": 0.1, "TestC17:spoof.route_fields=true": 0.05},
+        floors={"TestC17:mode=cancel": 0.1, "TestC17:mode=reattach/old_first=false/read": 0.02, "TestC17:mode=spoof/other-source": 0.025, "TestC17:mode=badpeer/slow-failing-dial": 0.012, "TestC17:badpeer.deaf_read=true": 0.05, "TestC17:mode=attach-race": 0.1, "TestC17:spoof.route_fields=true": 0.05, "TestC17:badpeer.dialled=true": 0.05},
         assumptions=COMMON_ASSUMPTIONS,
     ),
     "C18": dict(
@@ -253,9 +259,10 @@ CHECKS = {
               "idle: ServeHTTP driven directly with a recorder and a fake clockwork clock: 0..3 deliveries parked without a reader or a reader parked, the cleaner tick placed so that the connection's age is timeout-2s..timeout+2s, 1..3 ticks; oracle: no panic in ServeHTTP, readers of an expired connection fail. "
               "Non-trivial = >=2 envelopes or a body >32KiB (roundtrip); every raw/ctx/idle case."
               " concurrent-writers: 2..8 goroutines write 1..3 envelopes each on one connection of each transport at the same time (goat's own callers do); every envelope is read exactly once, unchanged, and each writer's envelopes stay in that writer's order."
-              " concurrent-writers over HTTP also counts the logical connections announced for the single source: more than one is a violation."),
+              " concurrent-writers over HTTP also counts the logical connections announced for the single source: more than one is a violation."
+              " object-reuse: one *Rpc object is changed in place (body, method, header metadata, status message lengths around the varint boundaries) between 2..8 writes over WebSocket and HTTP; each write must carry what the object held at that moment."),
         jobs=[dict(test="TestC19RoundTrip", quick=480, thorough=8000), dict(test="TestC19Raw", quick=800, thorough=20000), dict(test="TestC19Ctx", quick=48, thorough=400, shards=8),
-              dict(test="TestC19Idle", quick=400, thorough=6000, shards=8), dict(test="TestC19Conc", quick=320, thorough=4000), dict(test="FuzzC19Decode", kind="fuzz", quick=0, thorough=120)],
+              dict(test="TestC19Idle", quick=400, thorough=6000, shards=8), dict(test="TestC19Conc", quick=320, thorough=4000), dict(test="TestC19Reuse", quick=480, thorough=6000), dict(test="FuzzC19Decode", kind="fuzz", quick=0, thorough=120)],
         floors={"TestC19RoundTrip:rt.websocket": 0.25, "TestC19RoundTrip:rt.http": 0.2, "TestC19RoundTrip:rt.channel": 0.1, "TestC19Conc:conc.http": 0.25, "TestC19Idle:idle.fresh=true": 0.15, "TestC09Late:late.some_complete=true": 0.4},
         assumptions=COMMON_ASSUMPTIONS + ["WebSocket and HTTP sub-checks use real loopback sockets and wall-clock budgets; exceeding a budget is reported as inconclusive (exit 2), never as a violation"],
         timeout_quick=600,
